@@ -1,1 +1,1536 @@
-//! placeholder
+//! Operation interpreter: drives the real API and the reference model in lock-step and compares
+//! results, serialized state (through the independent codec) and decapsulation verdicts.
+
+#![allow(dead_code)]
+
+use crate::ccx::*;
+use crate::gen::{pick, Conj, PolicySpec, RPolicy, ATTR_NAMES, DIM_NAMES};
+use crate::model::*;
+use crate::report::Fail;
+use crate::wire::{self, WMpk, WMsk, WStructure, WUsk, WXEnc};
+use serde::{Deserialize, Serialize};
+use std::collections::{BTreeMap, BTreeSet, HashMap};
+
+#[derive(Clone, Debug, Serialize, Deserialize, Hash, PartialEq, Eq)]
+pub enum Op {
+    AddDim { name: u8, hier: bool },
+    DelDim { dim: u16, bad: bool },
+    AddAttr { dim: u16, name: u8, hybrid: bool, after: Option<u16>, bad: u8 },
+    DelAttr { dim: u16, attr: u16, bad: bool },
+    Rename { dim: u16, attr: u16, new: u8, bad: bool },
+    Disable { dim: u16, attr: u16, bad: bool },
+    Update,
+    Rekey { ap: PolicySpec, bad: u8 },
+    Prune { ap: PolicySpec, bad: u8 },
+    KeyGen { ap: PolicySpec, bad: u8 },
+    Refresh { usk: u16, keep: bool },
+    Encaps { mpk: u16, ap: PolicySpec, bad: u8 },
+    /// encapsulate for a conjunction derived from an existing user key (authorized pairs frequent)
+    EncapsFor { mpk: u16, usk: u16, variant: u8 },
+    Check,
+    RoundTrip { what: u8, sel: u16 },
+    Recaps { enc: u16, mpk: u16 },
+    ProbeStale { back: u8, usk: u16, keep: bool },
+    ProbeForged { usk: u16, kind: u8, keep: bool },
+}
+
+impl Op {
+    pub fn kind(&self) -> &'static str {
+        match self {
+            Op::AddDim { .. } => "AddDim",
+            Op::DelDim { .. } => "DelDim",
+            Op::AddAttr { .. } => "AddAttr",
+            Op::DelAttr { .. } => "DelAttr",
+            Op::Rename { .. } => "Rename",
+            Op::Disable { .. } => "Disable",
+            Op::Update => "Update",
+            Op::Rekey { .. } => "Rekey",
+            Op::Prune { .. } => "Prune",
+            Op::KeyGen { .. } => "KeyGen",
+            Op::Refresh { .. } => "Refresh",
+            Op::Encaps { .. } => "Encaps",
+            Op::EncapsFor { .. } => "EncapsFor",
+            Op::Check => "Check",
+            Op::RoundTrip { .. } => "RoundTrip",
+            Op::Recaps { .. } => "Recaps",
+            Op::ProbeStale { .. } => "ProbeStale",
+            Op::ProbeForged { .. } => "ProbeForged",
+        }
+    }
+}
+
+/// Why the interpretation of a history stopped early.
+pub enum Abort {
+    /// a failure attributed to the property under check
+    Violation(Fail),
+    /// a failure that belongs to other properties only: counted, case ends
+    OffProperty(String),
+}
+
+pub type Step<T = ()> = Result<T, Abort>;
+
+pub struct RealUsk {
+    pub key: UserSecretKey,
+    pub m: MUsk,
+    /// serialized marker vector as issued / last refreshed
+    pub id_bytes: Vec<Vec<u8>>,
+}
+
+pub struct RealEnc {
+    pub enc: XEnc,
+    pub secret: Vec<u8>,
+    pub m: MEnc,
+    pub from_recaps: bool,
+}
+
+pub struct World {
+    pub focus: String,
+    pub cc: Covercrypt,
+    pub msk: MasterSecretKey,
+    pub m: MMsk,
+    pub mpks: Vec<(MasterPublicKey, MMpk)>,
+    pub usks: Vec<RealUsk>,
+    pub encs: Vec<RealEnc>,
+    pub next_uid: Uid,
+    pub next_rev: RevId,
+    pub next_user: usize,
+    /// secret-key bytes of each model revision, learnt from the serialized MSK when it is created
+    pub rev_bytes: HashMap<RevId, Vec<u8>>,
+    /// every integer id ever observed for an attribute in this history -> model uid
+    pub ids_seen: HashMap<u64, Uid>,
+    /// real ids of deleted attributes (uid -> id), to map rights the MSK still holds
+    pub dead_ids: HashMap<Uid, u64>,
+    pub trace: Vec<String>,
+    pub events: BTreeSet<&'static str>,
+    pub counters: BTreeMap<&'static str, u64>,
+    pub msk_history: Vec<(Vec<u8>, MMsk)>,
+    pub checks_done: u64,
+    pub asserted_outcomes: u64,
+    pub max_usks: usize,
+    pub max_encs: usize,
+    /// number of wire-level comparisons performed
+    pub wire_checks: u64,
+    pub injected_roundtrip_at: Option<u64>,
+    pub outcomes_after_roundtrip: u64,
+}
+
+fn dnf_str(dnf: &[Conj]) -> String {
+    if dnf.iter().any(|c| c.is_empty()) {
+        return "*".into();
+    }
+    dnf.iter()
+        .map(|c| c.iter().map(|(d, a)| format!("{d}::{a}")).collect::<Vec<_>>().join(" && "))
+        .collect::<Vec<_>>()
+        .join(" || ")
+}
+
+impl World {
+    pub fn new(focus: &str) -> Result<Self, Fail> {
+        let cc = Covercrypt::default();
+        let (msk, mpk) = cc.setup().map_err(|e| Fail::new("setup-failed", short_err(&e)))?;
+        let mut m = MMsk::default();
+        let mut next_rev = 0;
+        let (_e, _created) = m.update(&mut next_rev);
+        let mm = m.mpk();
+        let mut w = World {
+            focus: focus.to_string(),
+            cc,
+            msk,
+            m,
+            mpks: vec![(mpk, mm)],
+            usks: vec![],
+            encs: vec![],
+            next_uid: 0,
+            next_rev,
+            next_user: 0,
+            rev_bytes: HashMap::new(),
+            ids_seen: HashMap::new(),
+            dead_ids: HashMap::new(),
+            trace: vec![],
+            events: BTreeSet::new(),
+            counters: BTreeMap::new(),
+            msk_history: vec![],
+            checks_done: 0,
+            asserted_outcomes: 0,
+            max_usks: 6,
+            max_encs: 8,
+            wire_checks: 0,
+            injected_roundtrip_at: None,
+            outcomes_after_roundtrip: 0,
+        };
+        // learn the bytes of the initial broadcast secret
+        if let Ok(b) = ser(&w.msk) {
+            if let Ok(wm) = WMsk::decode(&b) {
+                if let Some(chain) = wm.chain(&[]) {
+                    if let Some((_, s)) = chain.first() {
+                        w.rev_bytes.insert(0, s.sk.clone());
+                    }
+                }
+            }
+        }
+        Ok(w)
+    }
+
+    pub fn count(&mut self, k: &'static str) {
+        *self.counters.entry(k).or_insert(0) += 1;
+    }
+
+    fn log(&mut self, s: String) {
+        self.trace.push(s);
+    }
+
+    /// Raise a failure at a site that belongs to `props`.
+    pub fn fail<T>(&self, props: &[&str], sig: &str, msg: String) -> Step<T> {
+        let tail: Vec<String> = self.trace.iter().rev().take(60).rev().cloned().collect();
+        let full = format!("{msg}\n  history:\n    {}", tail.join("\n    "));
+        if props.contains(&self.focus.as_str()) || self.focus == "*" {
+            Err(Abort::Violation(Fail::new(sig, full)))
+        } else {
+            Err(Abort::OffProperty(format!("{sig} [{}]", props.join(","))))
+        }
+    }
+
+    // ------------------------------------------------------------------ name resolution
+
+    fn dim_name(&self, sel: u16, bad: bool) -> String {
+        if bad || self.m.structure.dims.is_empty() {
+            return "NoSuchDim".into();
+        }
+        self.m.structure.dims[pick(sel, self.m.structure.dims.len())].name.clone()
+    }
+    fn attr_name(&self, dim: &str, sel: u16, bad: bool) -> String {
+        match self.m.structure.dim(dim) {
+            Some(d) if !d.attrs.is_empty() && !bad => d.attrs[pick(sel, d.attrs.len())].name.clone(),
+            _ => "nope".into(),
+        }
+    }
+
+    /// Resolve a symbolic policy against a structure; `bad` injects an invalid element.
+    fn resolve(&self, ap: &PolicySpec, st: &MStructure, bad: u8, for_enc: bool) -> (RPolicy, Vec<Conj>, &'static str) {
+        let mut rp = ap.resolve(&st.view());
+        let mut note = "";
+        match bad % 16 {
+            1 if !rp.broadcast => {
+                rp.groups[0][0].1[0] = "nope".into();
+                note = "unknown-attribute";
+            }
+            2 if !rp.broadcast => {
+                rp.groups[0][0].0 = "NoSuchDim".into();
+                note = "unknown-dimension";
+            }
+            3 if for_enc && !rp.broadcast => {
+                // two attributes of one dimension in a conjunction
+                let (d, names) = rp.groups[0][0].clone();
+                if let Some(dim) = st.dim(&d) {
+                    if let Some(other) = dim.attrs.iter().find(|a| !names.contains(&a.name)) {
+                        rp.groups[0][0].1.truncate(1);
+                        rp.groups[0].push((d.clone(), vec![other.name.clone()]));
+                        note = "two-attrs-one-dim";
+                    }
+                }
+            }
+            _ => {}
+        }
+        let dnf = rp.dnf();
+        (rp, dnf, note)
+    }
+
+    fn real_policy(&self, rp: &RPolicy) -> Step<AccessPolicy> {
+        match rp.to_policy() {
+            Ok((p, _)) => Ok(p),
+            Err(e) => self.fail(&["C15", "C09"], "generated-policy-rejected-by-parser", e),
+        }
+    }
+
+    // ------------------------------------------------------------------ real <-> model rights
+
+    fn real_id(&self, uid: Uid) -> Option<u64> {
+        if let Some((_, a)) = self.m.structure.attr_by_uid(uid) {
+            return a.real_id;
+        }
+        self.dead_ids.get(&uid).copied()
+    }
+
+    pub fn right_bytes(&self, r: &RightM) -> Option<Vec<u8>> {
+        let ids: Option<Vec<u64>> = r.iter().map(|u| self.real_id(*u)).collect();
+        ids.map(|v| wire::right_bytes(&v))
+    }
+
+    // ------------------------------------------------------------------ wire-level comparison
+
+    /// Compare the serialized MSK with the model: rights, chain lengths, flags, flavours, users,
+    /// structure; learn the bytes of newly created revisions.
+    pub fn compare_msk(&mut self, created: &[(RightM, RevId)]) -> Step {
+        let bytes = match ser(&self.msk) {
+            Ok(b) => b,
+            Err(f) => return self.fail(&["C13"], "msk-serialize-failed", f.message),
+        };
+        let wm = match WMsk::decode(&bytes) {
+            Ok(w) => w,
+            Err(e) => return self.fail(&["C13"], "codec-cannot-decode-msk", format!("independent codec cannot decode the serialized MSK: {e}")),
+        };
+        self.wire_checks += 1;
+        if wm.encode() != bytes {
+            return self.fail(&["C13"], "codec-reencode-differs-msk", "re-encoding the decoded MSK differs from the serialized bytes".into());
+        }
+        self.compare_structure(&wm.structure, &self.m.structure.clone(), "msk")?;
+        // rights
+        let mut expected: BTreeMap<Vec<u8>, (&RightM, &Vec<MRev>)> = BTreeMap::new();
+        for (r, chain) in &self.m.rights {
+            match self.right_bytes(r) {
+                Some(b) => {
+                    if expected.insert(b.clone(), (r, chain)).is_some() {
+                        return self.fail(&["C03"], "two-model-rights-share-one-real-right", format!("two distinct attribute combinations map to the same serialized right {}", wire::hex(&b)));
+                    }
+                }
+                None => return self.fail(&["C13"], "internal-missing-real-id", format!("no real id for right {r:?}")),
+            }
+        }
+        let real: BTreeMap<Vec<u8>, &Vec<(u64, wire::WSecret)>> = wm.rights.iter().map(|(r, c)| (r.clone(), c)).collect();
+        if real.len() != wm.rights.len() {
+            return self.fail(&["C13"], "msk-duplicate-right", "serialized MSK lists a right twice".into());
+        }
+        for (b, (r, chain)) in &expected {
+            let Some(rc) = real.get(b) else {
+                return self.fail(&["C03", "C05", "C13", "C10"], "msk-right-missing", format!("MSK lacks right {:?} ({}) the model holds", self.describe_right(r), wire::hex(b)));
+            };
+            if rc.len() != chain.len() {
+                return self.fail(&["C04", "C05", "C13", "C10"], "msk-chain-length", format!("right {:?}: MSK chain has {} secrets, model {}", self.describe_right(r), rc.len(), chain.len()));
+            }
+            for (k, (rev, (act, sec))) in chain.iter().zip(rc.iter()).enumerate() {
+                if (*act == 1) != rev.activated {
+                    return self.fail(&["C06", "C13"], "msk-activation-flag", format!("right {:?} revision #{k}: activation flag {} but model says activated={}", self.describe_right(r), act, rev.activated));
+                }
+                if sec.hyb != rev.hybrid {
+                    return self.fail(&["C11", "C13"], "msk-flavour", format!("right {:?} revision #{k}: hybridized={} but the model says {}", self.describe_right(r), sec.hyb, rev.hybrid));
+                }
+                match self.rev_bytes.get(&rev.id) {
+                    Some(known) => {
+                        if known != &sec.sk {
+                            return self.fail(&["C04", "C05", "C13", "C10"], "msk-secret-changed", format!("right {:?} revision #{k}: secret bytes differ from when it was created", self.describe_right(r)));
+                        }
+                    }
+                    None => {
+                        if created.iter().any(|(_, id)| *id == rev.id) {
+                            if self.rev_bytes.values().any(|v| v == &sec.sk) {
+                                return self.fail(&["C16", "C04"], "new-secret-not-fresh", format!("right {:?}: freshly created secret equals an existing one", self.describe_right(r)));
+                            }
+                        }
+                    }
+                }
+            }
+        }
+        for b in real.keys() {
+            if !expected.contains_key(b) {
+                return self.fail(&["C03", "C05", "C13", "C10"], "msk-extra-right", format!("MSK holds right {} the model does not", wire::hex(b)));
+            }
+        }
+        // learn new bytes
+        for (b, (_r, chain)) in &expected {
+            let rc = real[b];
+            for (rev, (_, sec)) in chain.iter().zip(rc.iter()) {
+                self.rev_bytes.entry(rev.id).or_insert_with(|| sec.sk.clone());
+            }
+        }
+        // users
+        if wm.users.len() != self.m.users.len() {
+            return self.fail(&["C17", "C13", "C10"], "msk-user-count", format!("MSK registers {} user ids, model {}", wm.users.len(), self.m.users.len()));
+        }
+        if wm.tracers.len() != 2 {
+            return self.fail(&["C17", "C13"], "msk-tracer-count", format!("MSK has {} tracers, setup() promises tracing level 1 (2 tracers)", wm.tracers.len()));
+        }
+        if wm.signing_key.is_none() {
+            return self.fail(&["C08", "C13"], "msk-no-signing-key", "MSK has no signing key".into());
+        }
+        Ok(())
+    }
+
+    fn describe_right(&self, r: &RightM) -> String {
+        let names: Vec<String> = r
+            .iter()
+            .map(|u| match self.m.structure.attr_by_uid(*u) {
+                Some((d, a)) => format!("{}::{}", d.name, a.name),
+                None => format!("<deleted #{u}>"),
+            })
+            .collect();
+        if names.is_empty() {
+            "{broadcast}".into()
+        } else {
+            format!("{{{}}}", names.join(", "))
+        }
+    }
+
+    fn compare_structure(&self, ws: &WStructure, ms: &MStructure, what: &str) -> Step {
+        if ws.dims.len() != ms.dims.len() {
+            return self.fail(&["C03", "C13"], "structure-dimension-count", format!("{what}: serialized structure has {} dimensions, model {}", ws.dims.len(), ms.dims.len()));
+        }
+        for d in &ms.dims {
+            let Some(wd) = ws.dim(&d.name) else {
+                return self.fail(&["C03", "C13"], "structure-dimension-missing", format!("{what}: dimension {} missing from the serialized structure", d.name));
+            };
+            if (wd.ordered == 1) != d.hier {
+                return self.fail(&["C03", "C13"], "structure-dimension-kind", format!("{what}: dimension {} kind differs", d.name));
+            }
+            if wd.attrs.len() != d.attrs.len() {
+                return self.fail(&["C03", "C13"], "structure-attribute-count", format!("{what}: dimension {} has {} attributes, model {}", d.name, wd.attrs.len(), d.attrs.len()));
+            }
+            if d.hier {
+                let got: Vec<&str> = wd.attrs.iter().map(|a| a.name.as_str()).collect();
+                let want: Vec<&str> = d.attrs.iter().map(|a| a.name.as_str()).collect();
+                if got != want {
+                    return self.fail(&["C03", "C13"], "hierarchy-order", format!("{what}: hierarchy {} is ordered {got:?}, documented insertion rule gives {want:?}", d.name));
+                }
+            }
+            for a in &d.attrs {
+                let Some(wa) = wd.attrs.iter().find(|x| x.name == a.name) else {
+                    return self.fail(&["C03", "C13"], "structure-attribute-missing", format!("{what}: attribute {}::{} missing", d.name, a.name));
+                };
+                if (wa.hint == 1) != a.hybrid {
+                    return self.fail(&["C11", "C13"], "structure-hint", format!("{what}: attribute {}::{} hint differs", d.name, a.name));
+                }
+                if (wa.status == 0) != a.disabled {
+                    return self.fail(&["C06", "C13"], "structure-status", format!("{what}: attribute {}::{} status differs", d.name, a.name));
+                }
+                if let Some(id) = a.real_id {
+                    if wa.id != id {
+                        return self.fail(&["C03", "C13"], "attribute-id-changed", format!("{what}: attribute {}::{} id changed from {} to {}", d.name, a.name, id, wa.id));
+                    }
+                }
+            }
+        }
+        Ok(())
+    }
+
+    /// After a successful AddAttr: learn the integer id and check uniqueness against every id any
+    /// live or deleted attribute ever had in this history.
+    fn learn_attr_id(&mut self, dim: &str, name: &str, uid: Uid) -> Step {
+        let bytes = match ser(&self.msk.access_structure) {
+            Ok(b) => b,
+            Err(f) => return self.fail(&["C13"], "structure-serialize-failed", f.message),
+        };
+        let ws = match WStructure::decode(&bytes) {
+            Ok(w) => w,
+            Err(e) => return self.fail(&["C13"], "codec-cannot-decode-structure", e),
+        };
+        let Some(wa) = ws.attr(dim, name) else {
+            return self.fail(&["C03", "C13"], "structure-attribute-missing", format!("attribute {dim}::{name} missing right after add_attribute"));
+        };
+        let id = wa.id;
+        if let Some(prev) = self.ids_seen.get(&id) {
+            let who = match self.m.structure.attr_by_uid(*prev) {
+                Some((d, a)) => format!("live attribute {}::{}", d.name, a.name),
+                None => "a deleted attribute".to_string(),
+            };
+            let sig = if self.m.structure.attr_by_uid(*prev).is_some() { "attribute-id-reused-live" } else { "attribute-id-reused-deleted" };
+            return self.fail(&["C03"], sig, format!("new attribute {dim}::{name} received integer id {id}, already used by {who} in this history"));
+        }
+        self.ids_seen.insert(id, uid);
+        if let Some(d) = self.m.structure.dim_mut(dim) {
+            if let Some(a) = d.attrs.iter_mut().find(|a| a.name == name) {
+                a.real_id = Some(id);
+            }
+        }
+        Ok(())
+    }
+
+    fn remember_dead(&mut self, before: &MStructure) {
+        for d in &before.dims {
+            for a in &d.attrs {
+                if self.m.structure.attr_by_uid(a.uid).is_none() {
+                    if let Some(id) = a.real_id {
+                        self.dead_ids.insert(a.uid, id);
+                    }
+                }
+            }
+        }
+    }
+
+    pub fn compare_mpk(&mut self, mpk: &MasterPublicKey, mm: &MMpk) -> Step {
+        let bytes = match ser(mpk) {
+            Ok(b) => b,
+            Err(f) => return self.fail(&["C13"], "mpk-serialize-failed", f.message),
+        };
+        let wp = match WMpk::decode(&bytes) {
+            Ok(w) => w,
+            Err(e) => return self.fail(&["C13"], "codec-cannot-decode-mpk", e),
+        };
+        self.wire_checks += 1;
+        if wp.encode() != bytes {
+            return self.fail(&["C13"], "codec-reencode-differs-mpk", "re-encoding the decoded MPK differs".into());
+        }
+        self.compare_structure(&wp.structure, &mm.structure, "mpk")?;
+        if wp.keys.len() != mm.keys.len() {
+            let props: &[&str] = if wp.keys.len() > mm.keys.len() { &["C06", "C13", "C03"] } else { &["C13", "C03", "C04"] };
+            return self.fail(props, "mpk-right-count", format!("MPK publishes {} rights, model {}", wp.keys.len(), mm.keys.len()));
+        }
+        for (r, (_rev, hyb)) in &mm.keys {
+            let Some(b) = self.right_bytes(r) else { continue };
+            match wp.key(&b) {
+                None => return self.fail(&["C13", "C03", "C06"], "mpk-right-missing", format!("MPK lacks a key for right {}", self.describe_right(r))),
+                Some(k) => {
+                    if k.hyb != *hyb {
+                        return self.fail(&["C11", "C13"], "mpk-flavour", format!("MPK key of right {} has hybridized={}, model {}", self.describe_right(r), k.hyb, hyb));
+                    }
+                }
+            }
+        }
+        Ok(())
+    }
+
+    pub fn compare_usk(&mut self, idx: usize) -> Step {
+        let bytes = match ser(&self.usks[idx].key) {
+            Ok(b) => b,
+            Err(f) => return self.fail(&["C13"], "usk-serialize-failed", f.message),
+        };
+        let wu = match WUsk::decode(&bytes) {
+            Ok(w) => w,
+            Err(e) => return self.fail(&["C13"], "codec-cannot-decode-usk", e),
+        };
+        self.wire_checks += 1;
+        if wu.encode() != bytes {
+            return self.fail(&["C13"], "codec-reencode-differs-usk", "re-encoding the decoded USK differs".into());
+        }
+        let m = self.usks[idx].m.clone();
+        if wu.rights.len() != m.rights.len() {
+            return self.fail(&["C05", "C04", "C03", "C13"], "usk-right-count", format!("user key '{}' holds {} rights, model {}", m.policy, wu.rights.len(), m.rights.len()));
+        }
+        for (r, revs) in &m.rights {
+            let Some(b) = self.right_bytes(r) else { continue };
+            let Some(chain) = wu.chain(&b) else {
+                return self.fail(&["C05", "C04", "C03", "C13"], "usk-right-missing", format!("user key '{}' lacks right {}", m.policy, self.describe_right(r)));
+            };
+            if chain.len() != revs.len() {
+                return self.fail(&["C04", "C05", "C13"], "usk-chain-length", format!("user key '{}' right {}: chain has {} secrets, model {} ({:?})", m.policy, self.describe_right(r), chain.len(), revs.len(), revs));
+            }
+            for (k, (rev, sec)) in revs.iter().zip(chain.iter()).enumerate() {
+                if let Some(known) = self.rev_bytes.get(rev) {
+                    if known != &sec.sk {
+                        return self.fail(&["C04", "C05", "C13"], "usk-chain-content", format!("user key '{}' right {}: secret #{k} is not revision {rev} of the master key", m.policy, self.describe_right(r)));
+                    }
+                }
+                let want_h = self.m.rights.get(r).and_then(|c| c.iter().find(|x| x.id == *rev)).map(|x| x.hybrid);
+                if let Some(h) = want_h {
+                    if sec.hyb != h {
+                        return self.fail(&["C11", "C13"], "usk-flavour", format!("user key '{}' right {}: secret #{k} hybridized={}, model {}", m.policy, self.describe_right(r), sec.hyb, h));
+                    }
+                }
+            }
+        }
+        if wu.signature.is_none() {
+            return self.fail(&["C08", "C13"], "usk-unsigned", "issued user key carries no signature".into());
+        }
+        self.usks[idx].id_bytes = wu.id.clone();
+        Ok(())
+    }
+
+    // ------------------------------------------------------------------ decapsulation matrix
+
+    pub fn check_matrix(&mut self) -> Step {
+        self.checks_done += 1;
+        let removed = self.encs.iter().any(|e| {
+            e.m.targets
+                .iter()
+                .any(|(r, rev)| !self.m.rights.get(r).map(|c| c.iter().any(|m| m.id == *rev)).unwrap_or(false))
+        });
+        if removed && !self.usks.is_empty() {
+            self.events.insert("enc-under-removed-revision-at-check");
+        }
+        for ui in 0..self.usks.len() {
+            for ei in 0..self.encs.len() {
+                self.check_pair(ui, ei)?;
+            }
+        }
+        Ok(())
+    }
+
+    pub fn check_pair(&mut self, ui: usize, ei: usize) -> Step {
+        let expected = opens(&self.usks[ui].m, &self.encs[ei].m);
+        let r = self.cc.decaps(&self.usks[ui].key, &self.encs[ei].enc);
+        self.asserted_outcomes += 1;
+        if self.injected_roundtrip_at.is_some() {
+            self.outcomes_after_roundtrip += 1;
+        }
+        let recaps = self.encs[ei].from_recaps;
+        let ctx = format!(
+            "user key #{ui} '{}' (refreshed {}x) vs encapsulation #{ei} '{}' made under public key #{}",
+            self.usks[ui].m.policy, self.usks[ui].m.refreshed, self.encs[ei].m.policy, self.encs[ei].m.mpk_index
+        );
+        match r {
+            Err(e) => {
+                let props: &[&str] = if recaps { &["C18"] } else { &["C01", "C02", "C03", "C04", "C05", "C06", "C09", "C13"] };
+                self.fail(props, "decaps-error-on-valid-objects", format!("{ctx}: decaps returned Err({})", short_err(&e)))
+            }
+            Ok(Some(s)) => {
+                if !expected {
+                    self.count("verdict:unauthorized-opened");
+                    let props: &[&str] = if recaps { &["C18"] } else { &["C02", "C03", "C04", "C05", "C13"] };
+                    let leak = s.to_vec() == self.encs[ei].secret;
+                    self.fail(props, "unauthorized-key-opens", format!("{ctx}: model says NOT authorized, decaps returned a secret ({})", if leak { "the encapsulated one" } else { "a different one" }))
+                } else if s.to_vec() != self.encs[ei].secret {
+                    let props: &[&str] = if recaps { &["C18"] } else { &["C01", "C02", "C07", "C03", "C04", "C13"] };
+                    self.fail(props, "wrong-secret", format!("{ctx}: decaps returned a secret different from the encapsulated one"))
+                } else {
+                    self.count("verdict:authorized-opened");
+                    Ok(())
+                }
+            }
+            Ok(None) => {
+                if expected {
+                    let props: &[&str] = if recaps { &["C18"] } else { &["C01", "C03", "C04", "C05", "C06", "C13"] };
+                    self.fail(props, "authorized-key-cannot-open", format!("{ctx}: model says authorized, decaps returned None"))
+                } else {
+                    self.count("verdict:unauthorized-refused");
+                    Ok(())
+                }
+            }
+        }
+    }
+
+    // ------------------------------------------------------------------ snapshots for C10
+
+    fn snapshot_msk(&self) -> Step<Vec<u8>> {
+        match ser(&self.msk) {
+            Ok(b) => Ok(b),
+            Err(f) => self.fail(&["C13"], "msk-serialize-failed", f.message),
+        }
+    }
+
+    /// After a call that returned Err: the MSK must equal its pre-call snapshot.
+    fn msk_untouched(&self, before: &[u8], op: &str, cause: &str) -> Step {
+        let old: MasterSecretKey = match de(before) {
+            Ok(k) => k,
+            Err(e) => return self.fail(&["C13"], "msk-snapshot-unreadable", e),
+        };
+        if old != self.msk {
+            let now = ser(&self.msk).map(|b| b.len()).unwrap_or(0);
+            return self.fail(
+                &["C10"],
+                &format!("msk-modified-by-failed-{op}:{cause}"),
+                format!("{op} returned Err ({cause}) but the master key changed ({} -> {} bytes)", before.len(), now),
+            );
+        }
+        Ok(())
+    }
+
+    fn usk_untouched(&self, before: &[u8], now: &UserSecretKey, op: &str, cause: &str) -> Step {
+        let old: UserSecretKey = match de(before) {
+            Ok(k) => k,
+            Err(e) => return self.fail(&["C13"], "usk-snapshot-unreadable", e),
+        };
+        if &old != now {
+            let n = ser(now).map(|b| b.len()).unwrap_or(0);
+            return self.fail(
+                &["C10", "C08"],
+                &format!("usk-modified-by-failed-{op}:{cause}"),
+                format!("{op} returned Err ({cause}) but the user key changed ({} -> {} bytes)", before.len(), n),
+            );
+        }
+        Ok(())
+    }
+
+    // ------------------------------------------------------------------ op execution
+
+    pub fn run(&mut self, ops: &[Op]) -> Step {
+        for op in ops {
+            self.exec(op)?;
+        }
+        // final checkpoint
+        for i in 0..self.usks.len() {
+            self.compare_usk(i)?;
+        }
+        self.check_matrix()
+    }
+
+    fn push_mpk(&mut self, mpk: MasterPublicKey) -> Step {
+        let mm = self.m.mpk();
+        self.compare_mpk(&mpk, &mm)?;
+        self.mpks.push((mpk, mm));
+        if self.mpks.len() > 12 {
+            // keep indices stable for encapsulations: never drop, just cap growth by replacing the
+            // second oldest with a tombstone is not needed at these history lengths
+        }
+        Ok(())
+    }
+
+    fn mismatch(&self, op: &str, expect: &Expect, got_ok: bool, err_text: &str, extra_ok: &[&str], extra_err: &[&str]) -> Step {
+        match (expect, got_ok) {
+            (Expect::Ok, true) | (Expect::Err(_), false) => Ok(()),
+            (Expect::Ok, false) => {
+                let mut props = vec!["C09"];
+                props.extend_from_slice(extra_ok);
+                self.fail(&props, &format!("expected-ok-got-err:{op}"), format!("{op}: contract says success, call returned Err({err_text})"))
+            }
+            (Expect::Err(cause), true) => {
+                let mut props = vec!["C09"];
+                props.extend_from_slice(extra_err);
+                self.fail(&props, &format!("expected-err-got-ok:{op}:{cause}"), format!("{op}: contract says error ({cause}), call succeeded"))
+            }
+        }
+    }
+
+
+    pub fn add_dim_named(&mut self, nm: &str, hier: bool) -> Step {
+        let e = self.m.structure.add_dim(nm, hier);
+        let r = if hier { self.msk.access_structure.add_hierarchy(nm.to_string()) } else { self.msk.access_structure.add_anarchy(nm.to_string()) };
+        self.log(format!("add_{}({nm}) -> {}", if hier { "hierarchy" } else { "anarchy" }, okerr(&r)));
+        if matches!(e, Expect::Err(_)) {
+            self.events.insert("err:duplicate-dimension");
+        } else if self.events.contains("del-dim") {
+            self.events.insert("add-dim-after-del-dim");
+        }
+        self.mismatch("add_dimension", &e, r.is_ok(), &errtxt(&r), &["C03"], &[])
+    }
+
+    pub fn add_attr_named(&mut self, d: &str, nm: &str, hybrid: bool, after_nm: Option<&str>) -> Step {
+        let uid = self.next_uid;
+        let e = self.m.structure.add_attr(d, nm, hybrid, after_nm, uid);
+        let r = self.msk.access_structure.add_attribute(qa(d, nm), hint(hybrid), after_nm);
+        self.log(format!("add_attribute({d}::{nm}, hybridized={hybrid}, after={after_nm:?}) -> {}", okerr(&r)));
+        if let Expect::Err(c) = &e {
+            self.events.insert(match *c {
+                "unknown-dimension" => "err:unknown-dimension",
+                "duplicate-attribute" => "err:duplicate-attribute",
+                "bad-after" => "err:bad-after",
+                _ => "err:other",
+            });
+        }
+        self.mismatch("add_attribute", &e, r.is_ok(), &errtxt(&r), &["C03"], &[])?;
+        if e == Expect::Ok {
+            self.next_uid += 1;
+            if self.events.contains("deleted-something") {
+                self.events.insert("add-after-delete");
+            }
+            if self.events.contains("renamed") {
+                self.events.insert("add-after-rename");
+            }
+            if after_nm.is_some() {
+                self.events.insert("add-with-after");
+            }
+            if !self.usks.is_empty() {
+                self.events.insert("attr-created-after-keygen");
+            }
+            self.learn_attr_id(d, nm, uid)?;
+            let ms = self.m.structure.clone();
+            let ws = match ser(&self.msk.access_structure).ok().and_then(|b| WStructure::decode(&b).ok()) {
+                Some(w) => w,
+                None => return self.fail(&["C13"], "codec-cannot-decode-structure", "after add".into()),
+            };
+            self.compare_structure(&ws, &ms, "structure")?;
+        }
+        Ok(())
+    }
+
+    pub fn exec(&mut self, op: &Op) -> Step {
+        self.count(op.kind());
+        match op {
+            Op::AddDim { name, hier } => {
+                let nm = DIM_NAMES[*name as usize % DIM_NAMES.len()].to_string();
+                self.add_dim_named(&nm, *hier)
+            }
+            Op::DelDim { dim, bad } => {
+                let nm = self.dim_name(*dim, *bad);
+                let before = self.m.structure.clone();
+                let e = self.m.structure.del_dim(&nm);
+                let r = self.msk.access_structure.del_dimension(&nm);
+                self.log(format!("del_dimension({nm}) -> {}", okerr(&r)));
+                if e == Expect::Ok {
+                    self.events.insert("del-dim");
+                    self.events.insert("deleted-something");
+                    self.remember_dead(&before);
+                } else {
+                    self.events.insert("err:unknown-dimension");
+                }
+                self.mismatch("del_dimension", &e, r.is_ok(), &errtxt(&r), &["C03"], &[])
+            }
+            Op::AddAttr { dim, name, hybrid, after, bad } => {
+                let d = self.dim_name(*dim, *bad % 7 == 1);
+                let base = ATTR_NAMES[*name as usize % ATTR_NAMES.len()].to_string();
+                // duplicate names are generated on purpose when bad%7==2
+                let nm = if *bad % 7 == 2 { self.attr_name(&d, *name as u16 * 4096, false) } else { base };
+                let after_nm: Option<String> = match after {
+                    None => None,
+                    Some(sel) => Some(if *bad % 7 == 3 { "no-such-after".to_string() } else { self.attr_name(&d, *sel, false) }),
+                };
+                self.add_attr_named(&d, &nm, *hybrid, after_nm.as_deref())
+            }
+            Op::DelAttr { dim, attr, bad } => {
+                let d = self.dim_name(*dim, false);
+                let a = self.attr_name(&d, *attr, *bad);
+                let before = self.m.structure.clone();
+                let e = self.m.structure.del_attr(&d, &a);
+                let r = self.msk.access_structure.del_attribute(&qa(&d, &a));
+                self.log(format!("del_attribute({d}::{a}) -> {}", okerr(&r)));
+                if e == Expect::Ok {
+                    self.events.insert("del-attr");
+                    self.events.insert("deleted-something");
+                    self.remember_dead(&before);
+                } else {
+                    self.events.insert("err:unknown-attribute");
+                }
+                self.mismatch("del_attribute", &e, r.is_ok(), &errtxt(&r), &["C03"], &[])
+            }
+            Op::Rename { dim, attr, new, bad } => {
+                let d = self.dim_name(*dim, false);
+                let a = self.attr_name(&d, *attr, *bad);
+                let new_nm = format!("{}'", ATTR_NAMES[*new as usize % ATTR_NAMES.len()]);
+                let e = self.m.structure.rename(&d, &a, &new_nm);
+                let r = self.msk.access_structure.rename_attribute(&qa(&d, &a), new_nm.clone());
+                self.log(format!("rename_attribute({d}::{a} -> {new_nm}) -> {}", okerr(&r)));
+                if e == Expect::Ok {
+                    self.events.insert("renamed");
+                    if !self.usks.is_empty() {
+                        self.events.insert("renamed-after-keygen");
+                    }
+                } else {
+                    self.events.insert("err:rename");
+                }
+                self.mismatch("rename_attribute", &e, r.is_ok(), &errtxt(&r), &["C03"], &[])
+            }
+            Op::Disable { dim, attr, bad } => {
+                let d = self.dim_name(*dim, false);
+                let a = self.attr_name(&d, *attr, *bad);
+                let e = self.m.structure.disable(&d, &a);
+                let r = self.msk.access_structure.disable_attribute(&qa(&d, &a));
+                self.log(format!("disable_attribute({d}::{a}) -> {}", okerr(&r)));
+                if e == Expect::Ok {
+                    self.events.insert("disabled");
+                }
+                self.mismatch("disable_attribute", &e, r.is_ok(), &errtxt(&r), &["C06"], &[])
+            }
+            Op::Update => {
+                let before = self.snapshot_msk()?;
+                let mut m2 = self.m.clone();
+                let (e, created) = m2.update(&mut self.next_rev);
+                let r = self.cc.update_msk(&mut self.msk);
+                self.log(format!("update_msk() -> {}", okerr(&r)));
+                self.mismatch("update_msk", &e, r.is_ok(), &errtxt(&r), &["C03", "C05", "C06"], &[])?;
+                match r {
+                    Ok(mpk) => {
+                        let dropped = self.m.rights.len() + created.len() - m2.rights.len();
+                        if dropped > 0 {
+                            self.events.insert("update-dropped-rights");
+                        }
+                        if self.events.contains("disabled") {
+                            self.events.insert("update-after-disable");
+                            if self.events.contains("disable-effective") {
+                                self.events.insert("mpk-after-disable:update");
+                            }
+                            self.events.insert("disable-effective");
+                        }
+                        self.m = m2;
+                        self.compare_msk(&created)?;
+                        self.push_mpk(mpk)?;
+                        self.probe_disabled()?;
+                    }
+                    Err(_) => {
+                        self.events.insert("err:born-disabled");
+                        self.events.insert("late-error");
+                        self.msk_untouched(&before, "update_msk", "born-disabled")?;
+                    }
+                }
+                Ok(())
+            }
+            Op::Rekey { ap, bad } => {
+                let (rp, dnf, note) = self.resolve(ap, &self.m.structure.clone(), *bad, false);
+                if MStructure::ill_formed(&dnf) {
+                    return Ok(());
+                }
+                let pol = self.real_policy(&rp)?;
+                let before = self.snapshot_msk()?;
+                let mut m2 = self.m.clone();
+                let (e, created) = m2.rekey(&dnf, &mut self.next_rev);
+                let r = self.cc.rekey(&mut self.msk, &pol);
+                self.log(format!("rekey({}) -> {}", dnf_str(&dnf), okerr(&r)));
+                let _ = note;
+                self.mismatch("rekey", &e, r.is_ok(), &errtxt(&r), &["C04"], &[])?;
+                match r {
+                    Ok(mpk) => {
+                        self.events.insert("rekeyed");
+                        if self.events.contains("disable-effective") {
+                            self.events.insert("mpk-after-disable:rekey");
+                        }
+                        // partial rotation: some user key has only part of its rights rotated
+                        for u in &self.usks {
+                            let hit = u.m.rights.keys().filter(|r| created.iter().any(|(c, _)| c == *r)).count();
+                            if hit > 0 && hit < u.m.rights.len() {
+                                self.events.insert("partial-rotation");
+                            }
+                        }
+                        self.m = m2;
+                        self.compare_msk(&created)?;
+                        self.push_mpk(mpk)?;
+                        self.probe_disabled()?;
+                    }
+                    Err(_) => {
+                        if let Expect::Err(c) = &e {
+                            if *c == "rekey-unheld" {
+                                self.events.insert("err:rekey-unheld");
+                                self.events.insert("late-error");
+                            } else {
+                                self.events.insert("err:unknown-name-in-policy");
+                            }
+                            let c = *c;
+                            self.msk_untouched(&before, "rekey", c)?;
+                        }
+                    }
+                }
+                Ok(())
+            }
+            Op::Prune { ap, bad } => {
+                let (rp, dnf, _note) = self.resolve(ap, &self.m.structure.clone(), *bad, false);
+                if MStructure::ill_formed(&dnf) {
+                    return Ok(());
+                }
+                let pol = self.real_policy(&rp)?;
+                let before = self.snapshot_msk()?;
+                let mut m2 = self.m.clone();
+                let (e, removed) = m2.prune(&dnf);
+                let r = self.cc.prune_master_secret_key(&mut self.msk, &pol);
+                self.log(format!("prune({}) -> {}", dnf_str(&dnf), okerr(&r)));
+                self.mismatch("prune", &e, r.is_ok(), &errtxt(&r), &["C05"], &[])?;
+                match r {
+                    Ok(mpk) => {
+                        if removed > 0 {
+                            self.events.insert("pruned-revisions");
+                            // did some user key hold a removed revision?
+                            for u in &self.usks {
+                                for (r, revs) in &u.m.rights {
+                                    if let (Some(old), Some(new)) = (self.m.rights.get(r), m2.rights.get(r)) {
+                                        if old.len() > new.len() && revs.iter().any(|x| !new.iter().any(|m| m.id == *x)) {
+                                            self.events.insert("user-holds-pruned-revision");
+                                        }
+                                    }
+                                }
+                            }
+                        }
+                        if self.events.contains("disable-effective") {
+                            self.events.insert("mpk-after-disable:prune");
+                        }
+                        self.m = m2;
+                        self.compare_msk(&[])?;
+                        self.push_mpk(mpk)?;
+                        self.probe_disabled()?;
+                    }
+                    Err(_) => {
+                        self.events.insert("err:unknown-name-in-policy");
+                        self.msk_untouched(&before, "prune", "unknown-name")?;
+                    }
+                }
+                Ok(())
+            }
+            Op::KeyGen { ap, bad } => {
+                let (rp, dnf, _note) = self.resolve(ap, &self.m.structure.clone(), *bad, false);
+                if MStructure::ill_formed(&dnf) {
+                    return Ok(());
+                }
+                let pol = self.real_policy(&rp)?;
+                let before = self.snapshot_msk()?;
+                let mut m2 = self.m.clone();
+                let id = self.next_user;
+                let mr = m2.keygen(&dnf, id, dnf_str(&dnf));
+                let r = self.cc.generate_user_secret_key(&mut self.msk, &pol);
+                self.log(format!("generate_user_secret_key({}) -> {}", dnf_str(&dnf), okerr(&r)));
+                let e = match &mr {
+                    Ok(_) => Expect::Ok,
+                    Err(c) => Expect::Err(c),
+                };
+                self.mismatch("keygen", &e, r.is_ok(), &errtxt(&r), &["C03", "C01"], &[])?;
+                match (r, mr) {
+                    (Ok(key), Ok(mu)) => {
+                        self.next_user += 1;
+                        self.m = m2;
+                        if self.usks.len() >= self.max_usks {
+                            self.usks.remove(0);
+                        }
+                        self.usks.push(RealUsk { key, m: mu, id_bytes: vec![] });
+                        let idx = self.usks.len() - 1;
+                        self.compare_usk(idx)?;
+                        self.compare_msk(&[])?;
+                        self.check_user_registered(idx)?;
+                    }
+                    (Err(_), Err(c)) => {
+                        if c == "keygen-unheld" {
+                            self.events.insert("err:keygen-unheld");
+                            self.events.insert("late-error");
+                        } else {
+                            self.events.insert("err:unknown-name-in-policy");
+                        }
+                        self.msk_untouched(&before, "keygen", c)?;
+                    }
+                    _ => {}
+                }
+                Ok(())
+            }
+            Op::Refresh { usk, keep } => {
+                if self.usks.is_empty() {
+                    return Ok(());
+                }
+                let i = pick(*usk, self.usks.len());
+                let before_msk = self.snapshot_msk()?;
+                let before_usk = match ser(&self.usks[i].key) {
+                    Ok(b) => b,
+                    Err(f) => return self.fail(&["C13"], "usk-serialize-failed", f.message),
+                };
+                let mut mu = self.usks[i].m.clone();
+                // classify the situation before the call
+                let lost_right = mu.rights.keys().any(|r| !self.m.rights.contains_key(r));
+                let holds_removed_rev = mu.rights.iter().any(|(r, revs)| match self.m.rights.get(r) {
+                    None => true,
+                    Some(chain) => revs.iter().any(|x| !chain.iter().any(|m| m.id == *x)),
+                });
+                let behind = mu.rights.iter().any(|(r, revs)| self.m.rights.get(r).map(|c| c[0].id != revs[0]).unwrap_or(false));
+                let e = self.m.refresh(&mut mu, *keep);
+                let r = self.cc.refresh_usk(&mut self.msk, &mut self.usks[i].key, *keep);
+                self.log(format!("refresh_usk(user key #{i} '{}', keep_old_secrets={keep}) -> {}", mu.policy, okerr(&r)));
+                if lost_right {
+                    self.events.insert(if *keep { "refresh-after-delete:keep" } else { "refresh-after-delete:nokeep" });
+                }
+                if holds_removed_rev {
+                    self.events.insert("refresh-of-key-holding-removed-revision");
+                }
+                if behind {
+                    self.events.insert(if *keep { "refresh-behind:keep" } else { "refresh-behind:nokeep" });
+                }
+                self.mismatch("refresh_usk", &e, r.is_ok(), &errtxt(&r), &["C04", "C05", "C06"], &["C08", "C17"])?;
+                match r {
+                    Ok(()) => {
+                        // chains of different length inside one key
+                        let lens: BTreeSet<usize> = mu.rights.values().map(|v| v.len()).collect();
+                        if lens.len() > 1 {
+                            self.events.insert("key-with-uneven-chains");
+                        }
+                        self.usks[i].m = mu;
+                        self.compare_usk(i)?;
+                        self.compare_msk(&[])?;
+                        self.check_user_registered(i)?;
+                    }
+                    Err(_) => {
+                        self.msk_untouched(&before_msk, "refresh_usk", "unknown-user")?;
+                        let k = self.usks[i].key.clone();
+                        self.usk_untouched(&before_usk, &k, "refresh_usk", "unknown-user")?;
+                    }
+                }
+                Ok(())
+            }
+            Op::Encaps { mpk, ap, bad } => {
+                let mi = self.mpk_index(*mpk);
+                let st = self.mpks[mi].1.structure.clone();
+                let (rp, dnf, note) = self.resolve(ap, &st, *bad, true);
+                if note != "two-attrs-one-dim" && MStructure::ill_formed(&dnf) {
+                    return Ok(());
+                }
+                let pol = if note == "two-attrs-one-dim" { rp.to_ast() } else { self.real_policy(&rp)? };
+                self.do_encaps(mi, &dnf, &pol)
+            }
+            Op::EncapsFor { mpk, usk, variant } => {
+                if self.usks.is_empty() {
+                    return self.exec(&Op::Encaps { mpk: *mpk, ap: PolicySpec { broadcast: true, groups: vec![], shape: 0 }, bad: 0 });
+                }
+                let mi = self.mpk_index(*mpk);
+                let ui = pick(*usk, self.usks.len());
+                let st = self.mpks[mi].1.structure.clone();
+                // pick one right of the user key that the MPK's structure can name, and vary it
+                let rights: Vec<RightM> = self.usks[ui].m.rights.keys().cloned().collect();
+                if rights.is_empty() {
+                    return Ok(());
+                }
+                let r = &rights[(*variant as usize * 7 + 3) % rights.len()];
+                let mut conj: Conj = vec![];
+                for u in r {
+                    if let Some((d, a)) = st.attr_by_uid(*u) {
+                        conj.push((d.name.clone(), a.name.clone()));
+                    }
+                }
+                match variant % 4 {
+                    1 => {
+                        // step outside: replace one attribute by the next higher / a sibling
+                        if let Some((d, a)) = conj.first().cloned() {
+                            if let Some(dim) = st.dim(&d) {
+                                if let Some(pos) = dim.attrs.iter().position(|x| x.name == a) {
+                                    let other = &dim.attrs[(pos + 1) % dim.attrs.len()];
+                                    conj[0] = (d, other.name.clone());
+                                }
+                            }
+                        }
+                    }
+                    2 => {
+                        // add an attribute of a dimension the right does not mention
+                        if let Some(dim) = st.dims.iter().find(|dd| !conj.iter().any(|(d, _)| d == &dd.name) && !dd.attrs.is_empty()) {
+                            let a = &dim.attrs[*variant as usize / 4 % dim.attrs.len()];
+                            conj.push((dim.name.clone(), a.name.clone()));
+                        }
+                    }
+                    _ => {}
+                }
+                let dnf = vec![conj];
+                let rp = RPolicy::from_dnf(&dnf, *variant as u64 * 0x9e37 + 1);
+                let pol = self.real_policy(&rp)?;
+                self.do_encaps(mi, &dnf, &pol)
+            }
+            Op::Check => {
+                for i in 0..self.usks.len() {
+                    self.compare_usk(i)?;
+                }
+                self.check_matrix()
+            }
+            Op::RoundTrip { what, sel } => self.roundtrip(*what, *sel),
+            Op::Recaps { enc, mpk } => self.recaps(*enc, *mpk),
+            Op::ProbeStale { back, usk, keep } => self.probe_stale(*back, *usk, *keep),
+            Op::ProbeForged { usk, kind, keep } => self.probe_forged(*usk, *kind, *keep),
+        }
+    }
+
+    fn mpk_index(&self, sel: u16) -> usize {
+        let n = self.mpks.len();
+        if sel < 36000 {
+            n - 1
+        } else {
+            pick(sel, n)
+        }
+    }
+
+    fn do_encaps(&mut self, mi: usize, dnf: &[Conj], pol: &AccessPolicy) -> Step {
+        let me = self.mpks[mi].1.encaps(dnf);
+        let r = self.cc.encaps(&self.mpks[mi].0, pol);
+        let latest = mi == self.mpks.len() - 1;
+        self.log(format!("encaps(public key #{mi}{}, {}) -> {}", if latest { " (latest)" } else { " (old)" }, dnf_str(dnf), okerr(&r)));
+        let e = match &me {
+            Ok(_) => Expect::Ok,
+            Err(c) => Expect::Err(c),
+        };
+        if let Expect::Err(c) = &e {
+            self.events.insert(match *c {
+                "enc-disabled" => "err:enc-disabled",
+                "enc-not-yet-created" => "err:enc-not-yet-created",
+                "enc-two-attrs-one-dim" => "err:enc-two-attrs-one-dim",
+                _ => "err:unknown-name-in-policy",
+            });
+        }
+        self.mismatch("encaps", &e, r.is_ok(), &errtxt(&r), &["C01", "C03", "C06"], &["C06"])?;
+        if let (Ok((secret, enc)), Ok((targets, hybrid))) = (r, me) {
+            // flavour / size [C11]
+            let bytes = match ser(&enc) {
+                Ok(b) => b,
+                Err(f) => return self.fail(&["C13"], "xenc-serialize-failed", f.message),
+            };
+            let wx = match WXEnc::decode(&bytes) {
+                Ok(w) => w,
+                Err(e) => return self.fail(&["C13"], "codec-cannot-decode-xenc", e),
+            };
+            self.wire_checks += 1;
+            if wx.encode() != bytes {
+                return self.fail(&["C13"], "codec-reencode-differs-xenc", "re-encoding the decoded encapsulation differs".into());
+            }
+            if wx.hyb != hybrid {
+                return self.fail(&["C11"], "xenc-flavour", format!("encapsulation for {} is hybridized={}, but {} of its targets are hybridized rights", dnf_str(dnf), wx.hyb, if hybrid { "all" } else { "not all" }));
+            }
+            if wx.encs.len() != targets.len() {
+                return self.fail(&["C11", "C01", "C13"], "xenc-target-count", format!("encapsulation for {} carries {} components, {} targets expected", dnf_str(dnf), wx.encs.len(), targets.len()));
+            }
+            if bytes.len() != WXEnc::formula_len(2, hybrid, targets.len()) {
+                return self.fail(&["C11", "C13"], "xenc-size-formula", format!("encapsulation size {} differs from the documented formula {}", bytes.len(), WXEnc::formula_len(2, hybrid, targets.len())));
+            }
+            if enc.count() != targets.len() {
+                return self.fail(&["C13", "C18"], "xenc-count-accessor", "XEnc::count() differs from the number of targets".into());
+            }
+            // feature events
+            if targets.len() > 1 {
+                self.events.insert("multi-target-enc");
+            }
+            if !latest {
+                self.events.insert("enc-under-old-mpk");
+            }
+            for (r, rev) in &targets {
+                if let Some(chain) = self.m.rights.get(r) {
+                    if chain[0].id != *rev {
+                        self.events.insert("enc-under-non-newest-revision");
+                    }
+                    if !chain.iter().any(|m| m.id == *rev) {
+                        self.events.insert("enc-under-removed-revision");
+                    }
+                } else {
+                    self.events.insert("enc-under-removed-revision");
+                }
+            }
+            if self.events.contains("attr-created-after-keygen") || self.events.contains("renamed-after-keygen") {
+                self.events.insert("enc-after-edit-with-keys");
+            }
+            if self.encs.len() >= self.max_encs {
+                self.encs.remove(0);
+            }
+            self.encs.push(RealEnc {
+                enc,
+                secret: secret.to_vec(),
+                m: MEnc { targets, hybrid, policy: dnf_str(dnf), mpk_index: mi },
+                from_recaps: false,
+            });
+        }
+        Ok(())
+    }
+
+    /// [C06] After every op that yields an MPK: encapsulating for a disabled attribute must fail
+    /// (alone and conjoined), and enabled attributes must still work.
+    fn probe_disabled(&mut self) -> Step {
+        let mi = self.mpks.len() - 1;
+        let st = self.mpks[mi].1.structure.clone();
+        let mut probes: Vec<Conj> = vec![];
+        for d in &st.dims {
+            for a in &d.attrs {
+                if a.disabled {
+                    probes.push(vec![(d.name.clone(), a.name.clone())]);
+                    if let Some(od) = st.dims.iter().find(|x| x.name != d.name && x.attrs.iter().any(|y| !y.disabled)) {
+                        let oa = od.attrs.iter().find(|y| !y.disabled).unwrap();
+                        probes.push(vec![(d.name.clone(), a.name.clone()), (od.name.clone(), oa.name.clone())]);
+                    }
+                }
+            }
+        }
+        for conj in probes.into_iter().take(6) {
+            let dnf = vec![conj];
+            let me = self.mpks[mi].1.encaps(&dnf);
+            let pol = RPolicy::from_dnf(&dnf, 0).to_ast();
+            let r = self.cc.encaps(&self.mpks[mi].0, &pol);
+            self.count("disabled-probe");
+            match (&me, &r) {
+                (Err(_), Ok(_)) => {
+                    return self.fail(&["C06", "C09"], "encaps-for-disabled-attribute-succeeds", format!("public key #{mi} allows encapsulating for {} although the attribute is disabled and the master key was updated", dnf_str(&dnf)));
+                }
+                (Ok(_), Err(e)) => {
+                    // disabled in the structure but not yet effective (no update since): model says Ok
+                    return self.fail(&["C09"], "expected-ok-got-err:encaps-probe", format!("probe {}: {}", dnf_str(&dnf), short_err(e)));
+                }
+                (Err(_), Err(_)) => {
+                    self.events.insert("disabled-probe-refused");
+                }
+                _ => {}
+            }
+        }
+        Ok(())
+    }
+
+    /// [C17] the key's id is registered in the MSK and satisfies the tracing relation
+    fn check_user_registered(&mut self, idx: usize) -> Step {
+        let bytes = self.snapshot_msk()?;
+        let Ok(wm) = WMsk::decode(&bytes) else { return Ok(()) };
+        let id = self.usks[idx].id_bytes.clone();
+        if !wm.users.iter().any(|u| *u == id) {
+            return self.fail(&["C17"], "issued-id-not-registered", format!("user key #{idx}: its identifier is not in the master key's user set"));
+        }
+        // all registered ids distinct
+        let set: BTreeSet<&Vec<Vec<u8>>> = wm.users.iter().collect();
+        if set.len() != wm.users.len() {
+            return self.fail(&["C17", "C16"], "duplicate-user-id", "two registered user ids are equal".into());
+        }
+        if let Err(e) = crate::props::c17::tracing_relation(&wm, &id) {
+            return self.fail(&["C17"], "tracing-relation-violated", format!("user key #{idx}: {e}"));
+        }
+        Ok(())
+    }
+
+    fn roundtrip(&mut self, what: u8, sel: u16) -> Step {
+        match what % 4 {
+            0 => {
+                let b = self.snapshot_msk()?;
+                match de::<MasterSecretKey>(&b) {
+                    Ok(k) => {
+                        if k != self.msk {
+                            return self.fail(&["C13"], "roundtrip-not-equal:msk", "deserialize(serialize(msk)) != msk".into());
+                        }
+                        self.msk = k;
+                        self.log("round-trip MSK".into());
+                        // re-derive the public key from the deserialized master key [C06]
+                        match self.msk.mpk() {
+                            Ok(mpk) => {
+                                if self.events.contains("disable-effective") {
+                                    self.events.insert("mpk-after-disable:roundtrip");
+                                }
+                                self.push_mpk(mpk)?;
+                                self.probe_disabled()?;
+                            }
+                            Err(e) => return self.fail(&["C13", "C09"], "mpk-derivation-failed", short_err(&e)),
+                        }
+                    }
+                    Err(e) => return self.fail(&["C13"], "roundtrip-deserialize-failed:msk", e),
+                }
+            }
+            1 => {
+                let i = self.mpks.len() - 1;
+                let b = match ser(&self.mpks[i].0) {
+                    Ok(b) => b,
+                    Err(f) => return self.fail(&["C13"], "mpk-serialize-failed", f.message),
+                };
+                match de::<MasterPublicKey>(&b) {
+                    Ok(k) => {
+                        if k != self.mpks[i].0 {
+                            return self.fail(&["C13"], "roundtrip-not-equal:mpk", "deserialize(serialize(mpk)) != mpk".into());
+                        }
+                        self.mpks[i].0 = k;
+                        self.log(format!("round-trip public key #{i}"));
+                    }
+                    Err(e) => return self.fail(&["C13"], "roundtrip-deserialize-failed:mpk", e),
+                }
+            }
+            2 => {
+                if self.usks.is_empty() {
+                    return Ok(());
+                }
+                let i = pick(sel, self.usks.len());
+                let b = match ser(&self.usks[i].key) {
+                    Ok(b) => b,
+                    Err(f) => return self.fail(&["C13"], "usk-serialize-failed", f.message),
+                };
+                match de::<UserSecretKey>(&b) {
+                    Ok(k) => {
+                        if k != self.usks[i].key {
+                            return self.fail(&["C13"], "roundtrip-not-equal:usk", "deserialize(serialize(usk)) != usk".into());
+                        }
+                        self.usks[i].key = k;
+                        self.log(format!("round-trip user key #{i}"));
+                    }
+                    Err(e) => return self.fail(&["C13"], "roundtrip-deserialize-failed:usk", e),
+                }
+            }
+            _ => {
+                if self.encs.is_empty() {
+                    return Ok(());
+                }
+                let i = pick(sel, self.encs.len());
+                let b = match ser(&self.encs[i].enc) {
+                    Ok(b) => b,
+                    Err(f) => return self.fail(&["C13"], "xenc-serialize-failed", f.message),
+                };
+                match de::<XEnc>(&b) {
+                    Ok(k) => {
+                        if k != self.encs[i].enc {
+                            return self.fail(&["C13"], "roundtrip-not-equal:xenc", "deserialize(serialize(xenc)) != xenc".into());
+                        }
+                        self.encs[i].enc = k;
+                        self.log(format!("round-trip encapsulation #{i}"));
+                    }
+                    Err(e) => return self.fail(&["C13"], "roundtrip-deserialize-failed:xenc", e),
+                }
+            }
+        }
+        self.events.insert("roundtrip");
+        if self.injected_roundtrip_at.is_none() {
+            self.injected_roundtrip_at = Some(self.asserted_outcomes);
+        }
+        Ok(())
+    }
+
+    /// [C18]
+    fn recaps(&mut self, enc: u16, mpk: u16) -> Step {
+        if self.encs.is_empty() {
+            return Ok(());
+        }
+        let ei = pick(enc, self.encs.len());
+        let mi = self.mpk_index(mpk);
+        let orig = self.encs[ei].m.clone();
+        // open = targets whose (right, rev) the MSK still holds as an *activated* secret (the master key
+        // only opens with activated secrets); pub = rights the given MPK publishes
+        let open: BTreeSet<RightM> = orig
+            .targets
+            .iter()
+            .filter(|(r, rev)| self.m.rights.get(r).map(|c| c.iter().any(|m| m.id == *rev && m.activated)).unwrap_or(false))
+            .map(|(r, _)| r.clone())
+            .collect();
+        let mm = self.mpks[mi].1.clone();
+        let publishable: BTreeSet<(RightM, RevId)> = open.iter().filter_map(|r| mm.keys.get(r).map(|(rev, _)| (r.clone(), *rev))).collect();
+        let changed = orig.targets.iter().any(|(r, rev)| self.m.rights.get(r).map(|c| c[0].id != *rev || !c[0].activated).unwrap_or(true));
+        let r = self.cc.recaps(&self.msk, &self.mpks[mi].0, &self.encs[ei].enc);
+        self.log(format!(
+            "recaps(encapsulation #{ei} '{}' [{} targets, {} still open, {} publishable], public key #{mi}) -> {}",
+            orig.policy,
+            orig.targets.len(),
+            open.len(),
+            publishable.len(),
+            okerr(&r)
+        ));
+        self.count("recaps");
+        if orig.targets.len() > 1 && changed {
+            self.events.insert("recaps-multi-target-after-change");
+        }
+        if self.encs[ei].from_recaps {
+            self.events.insert("recaps-of-recaps");
+        }
+        if publishable.is_empty() {
+            self.events.insert("recaps-none-recoverable");
+            if r.is_ok() {
+                // an Ok result must at least not be openable by anyone; tolerated only if it targets nothing
+                let (_s, e2) = r.unwrap();
+                if e2.count() != 0 {
+                    return self.fail(&["C18", "C09"], "recaps-succeeds-with-nothing-recoverable", format!("recaps of '{}' succeeded with {} targets although none of the original rights can be recovered and published", orig.policy, e2.count()));
+                }
+            }
+            return Ok(());
+        }
+        match r {
+            Err(e) => self.fail(&["C18", "C09"], "recaps-fails-although-rights-recoverable", format!("recaps of '{}' failed ({}) although {} of its {} original rights can still be opened and published", orig.policy, short_err(&e), publishable.len(), orig.targets.len())),
+            Ok((secret, enc2)) => {
+                if secret.to_vec() == self.encs[ei].secret {
+                    return self.fail(&["C18", "C16"], "recaps-reuses-secret", "re-encapsulation returned the original secret".into());
+                }
+                if enc2 == self.encs[ei].enc {
+                    return self.fail(&["C18", "C16"], "recaps-reuses-encapsulation", "re-encapsulation returned the original encapsulation".into());
+                }
+                if enc2.count() != publishable.len() {
+                    return self.fail(&["C18"], "recaps-target-count", format!("re-encapsulation of '{}' targets {} rights, expected exactly the {} recoverable+publishable ones", orig.policy, enc2.count(), publishable.len()));
+                }
+                let hybrid = publishable.iter().all(|(r, _)| mm.keys[r].1);
+                if self.encs.len() >= self.max_encs {
+                    self.encs.remove(0);
+                }
+                self.encs.push(RealEnc {
+                    enc: enc2,
+                    secret: secret.to_vec(),
+                    m: MEnc { targets: publishable, hybrid, policy: format!("recaps({})", orig.policy), mpk_index: mi },
+                    from_recaps: true,
+                });
+                // verdicts for the new encapsulation at once
+                let ni = self.encs.len() - 1;
+                for ui in 0..self.usks.len() {
+                    self.check_pair(ui, ni)?;
+                }
+                Ok(())
+            }
+        }
+    }
+
+    pub fn remember_msk(&mut self) {
+        if let Ok(b) = ser(&self.msk) {
+            self.msk_history.push((b, self.m.clone()));
+            if self.msk_history.len() > 6 {
+                self.msk_history.remove(0);
+            }
+        }
+    }
+
+    /// [C10, C17] Refresh a clone of a user key with an older snapshot of the master key.
+    fn probe_stale(&mut self, back: u8, usk: u16, keep: bool) -> Step {
+        if self.usks.is_empty() || self.msk_history.is_empty() {
+            self.remember_msk();
+            return Ok(());
+        }
+        let hi = self.msk_history.len() - 1 - (back as usize % self.msk_history.len());
+        let (bytes, mm) = self.msk_history[hi].clone();
+        let ui = pick(usk, self.usks.len());
+        let mut stale: MasterSecretKey = match de(&bytes) {
+            Ok(k) => k,
+            Err(e) => return self.fail(&["C13"], "roundtrip-deserialize-failed:msk", e),
+        };
+        let mut key = self.usks[ui].key.clone();
+        let before_usk = ser(&key).map_err(|f| Abort::Violation(f))?;
+        let known = mm.users.contains(&self.usks[ui].m.id);
+        let r = self.cc.refresh_usk(&mut stale, &mut key, keep);
+        self.log(format!("probe: refresh_usk(master key snapshot -{back}, clone of user key #{ui}, keep={keep}) [id known to snapshot: {known}] -> {}", okerr(&r)));
+        self.count("probe-stale");
+        if known {
+            self.events.insert("stale-refresh-known-id");
+            if let Err(e) = &r {
+                return self.fail(&["C09", "C17"], "expected-ok-got-err:refresh-with-older-master-key", format!("id registered in the snapshot, refresh failed: {}", short_err(e)));
+            }
+        } else {
+            self.events.insert("stale-refresh-unknown-id");
+            self.events.insert("late-error");
+            if r.is_ok() {
+                return self.fail(&["C17", "C09", "C08"], "expected-err-got-ok:refresh:unknown-user", "a master key that never registered this identifier refreshed the key".into());
+            }
+            self.usk_untouched(&before_usk, &key, "refresh_usk", "unknown-user")?;
+            let old: MasterSecretKey = de(&bytes).map_err(|e| Abort::Violation(Fail::new("internal", e)))?;
+            if old != stale {
+                return self.fail(&["C10"], "msk-modified-by-failed-refresh_usk:unknown-user", "refresh returned Err but the (snapshot) master key changed".into());
+            }
+        }
+        self.remember_msk();
+        Ok(())
+    }
+
+    /// [C08, C10] Refresh a tampered clone of an issued key.
+    fn probe_forged(&mut self, usk: u16, kind: u8, keep: bool) -> Step {
+        if self.usks.is_empty() {
+            return Ok(());
+        }
+        let ui = pick(usk, self.usks.len());
+        let bytes = ser(&self.usks[ui].key).map_err(Abort::Violation)?;
+        let Ok(mut wu) = WUsk::decode(&bytes) else { return Ok(()) };
+        let what;
+        match kind % 5 {
+            0 => {
+                // drop a right
+                if wu.rights.len() < 2 {
+                    return Ok(());
+                }
+                wu.rights.pop();
+                what = "drop-right";
+            }
+            1 => {
+                // swap the secrets of two rights
+                if wu.rights.len() < 2 {
+                    return Ok(());
+                }
+                let a = wu.rights[0].1.clone();
+                wu.rights[0].1 = wu.rights[1].1.clone();
+                wu.rights[1].1 = a;
+                if wu.rights[0].1 == wu.rights[1].1 {
+                    return Ok(());
+                }
+                what = "swap-secrets";
+            }
+            2 => {
+                // alter the signature
+                if let Some(s) = wu.signature.as_mut() {
+                    s[0] ^= 1;
+                }
+                what = "alter-signature";
+            }
+            3 => {
+                // splice: rights of another key
+                if self.usks.len() < 2 {
+                    return Ok(());
+                }
+                let oj = (ui + 1) % self.usks.len();
+                let ob = ser(&self.usks[oj].key).map_err(Abort::Violation)?;
+                let Ok(wo) = WUsk::decode(&ob) else { return Ok(()) };
+                if wo.rights == wu.rights {
+                    return Ok(());
+                }
+                wu.rights = wo.rights;
+                what = "splice-rights-of-other-key";
+            }
+            _ => {
+                // change one marker of the id
+                if let Some(m) = wu.id.first_mut() {
+                    m[0] ^= 1;
+                }
+                what = "alter-id";
+            }
+        }
+        let forged_bytes = wu.encode();
+        let Ok(mut forged) = de::<UserSecretKey>(&forged_bytes) else { return Ok(()) };
+        let before_msk = self.snapshot_msk()?;
+        let r = self.cc.refresh_usk(&mut self.msk, &mut forged, keep);
+        self.log(format!("probe: refresh_usk(forged clone of user key #{ui} [{what}], keep={keep}) -> {}", okerr(&r)));
+        self.count("probe-forged");
+        self.events.insert("forged-refresh");
+        if r.is_ok() {
+            // restore the world: the real MSK may have been touched; report
+            return self.fail(&["C08", "C09"], &format!("forged-key-accepted:{what}"), format!("refresh accepted a forged user key ({what})"));
+        }
+        self.msk_untouched(&before_msk, "refresh_usk", "forged")?;
+        self.usk_untouched(&forged_bytes, &forged, "refresh_usk", "forged")?;
+        Ok(())
+    }
+}
+
+fn okerr<T>(r: &Result<T, Error>) -> String {
+    match r {
+        Ok(_) => "Ok".into(),
+        Err(e) => format!("Err({})", short_err(e).chars().take(70).collect::<String>()),
+    }
+}
+fn errtxt<T>(r: &Result<T, Error>) -> String {
+    match r {
+        Ok(_) => String::new(),
+        Err(e) => short_err(e),
+    }
+}
